@@ -23,13 +23,16 @@ class C14(Prop):
             "BufWriter capacity; bigBed (single/two pass): cases from the bed grammar (1-5 chromosomes, entry layouts disjoint/overlapping/nested/identical/"
             "zero-length, rest fields, autoSql none/BED3-like/text/unparsable/multibyte), one-chromosome uncompressed cases (exact trace comparison), refused "
             "calls (unsorted, start > end, start beyond the chromosome, unknown chromosome, chromosome order, chromosome coming back, empty, NUL in the "
-            "autoSql, refused options); non-trivial = accepted input with at least 2 values; distinct = distinct case text")
+            "autoSql, refused options); SHORT-WRITE destinations (at most 1, 7 or 4096 bytes accepted per write call): bigWig and bigBed x single/two pass x "
+            "staging in memory / in temporary files x the three limits on 2-3 chromosome inputs whose three zoom levels each exceed the 8 KiB buffer, plus "
+            "ordinary small cases of both types: writer must return Ok, destination bytes and every reader answer = the reference run's; non-trivial = accepted input with at least 2 values; distinct = distinct case text")
     CORRESPONDENCE = ("recorded sink trace of BigWigWrite::write / write_multipass and of BigBedWrite::write / write_multipass = Model/SinkTrace.v / "
                       "SinkTraceBed.v trace: exactly (operations, crash-point "
                       "verdicts, fault outcomes) for one-chromosome uncompressed inputs whose regions stay below the BufWriter capacity; "
                       "as coalesced write runs (which region is written when) otherwise; refused inputs: what was written is a prefix of the model's")
     TRUSTED = ["the recording / failing sink and the crash-point replay in harness/src/bin/c14.rs"]
-    ASSUMPTIONS = ["the header operation (one write of 64+24*levels <= 304 bytes at offset 0) is atomic: a sink that tears it is outside the property",
+    ASSUMPTIONS = ["short writes: validated only (a destination accepting at most 1 / 7 / 4096 bytes per write call must end up with exactly the reference run's file); the trace model has no short writes",
+                   "the header operation (one write of 64+24*levels <= 304 bytes at offset 0) is atomic: a sink that tears it is outside the property",
                    "a failing sink operation has no effect on the destination",
                    "bigBed crash points after the header operation: the total summary and the item count are not final and not asked",
                    "f32 -0.0 is not generated", "compressed files: the trace is compared by status only; crash points and faults are still enumerated"]
@@ -159,7 +162,68 @@ class C14(Prop):
         o = [0, ips, rng.choice([4, 256]), 160, 10, manual, 1]
         return [rng.choice([0, 0, 1]), o, sizes, inp, qs]
 
+    SHORT = [1, 7, 4096]
+
+    def zoom_staged_case(self, rng, bed, two_pass):
+        """2-3 chromosomes, 300-700 values / entries each at stride 10, manual zoom levels 10, 20, 40, uncompressed: every zoom
+        level is well above the destination's 8 KiB buffer, so a level that was staged (in memory or in a temporary file) is
+        handed to the destination in writes of 8 KiB and more - the writes a short-writing destination cuts"""
+        nchrom = rng.choice([2, 3])
+        names = sorted(rng.sample(bbigen.NAMES[:9], nchrom), key=lambda x: x.encode())
+        sizes = []; inp = []; qs = []
+        named = rng.choice([0, 1])
+        for nm in names:
+            n = rng.choice([300, 450, 700]) + rng.randint(0, 40)
+            for i in range(n):
+                e = i * 10 + rng.choice([3, 5, 10])
+                inp.append([nm, i * 10, e, ("n%d" % i if named else "") if bed else bbigen.f32bits(rng.choice([1.0, 2.0, 0.5]))])
+            ln = n * 10 + 5
+            sizes.append([nm, ln])
+            qs += [[0, nm, 0, ln], [0, nm, 15, 95]] + [[2, nm, 0, ln, r] for r in (10, 20, 40)] + [[2, nm, ln // 2, ln // 2 + 200, 20]]
+        qs += [[4], [3]] + ([[6], [5]] if bed else [])
+        o = [0, rng.choice([64, 1024]), rng.choice([4, 256]), 160, 10, [[10, 20, 40]], 1]
+        return [(10 if bed else 0) + (1 if two_pass else 0), o, sizes, inp, qs]
+
+    def short_cases(self, rng, tier):
+        """SHORT-WRITE destinations (cfg field 4 = the most bytes one `write` call accepts: 1, 7, 4096): the writer must still
+        return Ok with exactly the file of the reference run (bytes, and every answer of the real reader), for both file types,
+        both pass modes, staging in memory and in temporary files"""
+        reps = 1 if tier == "quick" else 8
+        k = 0
+        for _ in range(reps):
+            for bed in (False, True):
+                for two_pass in (False, True):
+                    for inmem in (0, 1):
+                        for short in self.SHORT:
+                            c = self.zoom_staged_case(rng, bed, two_pass)
+                            threads = rng.choice([2, 0, 4])
+                            c.append([threads, inmem, 1, short])
+                            if bed:
+                                c.append([])
+                            yield sx(c), ["short-write", "short=%d" % short, "zoom-staged", "bigBed" if bed else "bigWig", "pass=%d" % (2 if two_pass else 1),
+                                          "chroms=%d" % len(c[2]), "threads=%d" % threads, "inmemory=%d" % inmem]
+        # ordinary small cases of both types (exact-trace ones included) through a short-writing destination
+        for i in range(12 if tier == "quick" else 240):
+            short = self.SHORT[i % 3]; inmem = (i // 3) % 2
+            if i % 2 == 0:
+                txt, tags = bbigen.bw_case(rng, tier, kind=(i // 2) % 2, fmode="nice", extra_queries=True, compress=(1 if i % 10 == 8 else 0))
+                c = parse_sx(txt)
+                c = [c[0], c[1], c[2], c[3], c[4][:40], [2, inmem, 1, short]]
+            else:
+                txt, tags = self.bed_one(rng, tier, 2 * (i // 2))
+                c = parse_sx(txt)
+                c[0] = 10 + (i // 2) % 2
+                c[5] = [2, inmem, 1, short]
+                tags = [t for t in tags if not t.startswith(("threads=", "inmemory=", "pass="))] + ["pass=%d" % (c[0] - 9)]
+            yield sx(c), ["short-write", "short=%d" % short] + tags + ["threads=2", "inmemory=%d" % inmem]
+
     def gen(self, rng, tier):
+        for x in self.gen_main(rng, tier):
+            yield x
+        for x in self.short_cases(rng, tier):
+            yield x
+
+    def gen_main(self, rng, tier):
         n = 120 if tier == "quick" else 1500
         for i in range(n):
             txt, tags = bbigen.bw_case(rng, tier, fmode="nice", extra_queries=True,
@@ -249,6 +313,11 @@ class C14(Prop):
         if i[2] != m[4]:
             return False
         if m[1]:
+            cfg = parse_sx(case)[5]
+            if len(cfg) > 3 and cfg[3] > 0:
+                # short-write case: the operations are cut by the destination; the coalesced writes (compared above) are not
+                st["short_write_cases_exact_model"] = st.get("short_write_cases_exact_model", 0) + 1
+                return i[1] == [] and i[5] == []
             return i[1] == m[3] and i[3] == m[5] and i[5] == m[6]
         return True
 
